@@ -703,6 +703,79 @@ func c07Restart(end string, b Bounds) *Scenario {
 	}
 }
 
+// c07NearID: CancelRequest naming an id whose text merely resembles the id of the call in flight
+// (the number 7 versus the string "7", and the other way round): a different id, so nothing happens.
+func c07NearID(callID, cancelID string, b Bounds) *Scenario {
+	return &Scenario{
+		Name:   fmt.Sprintf("call with id %s in flight, CancelRequest(%s): another id", callID, cancelID),
+		Params: map[string]any{"call_id": callID, "cancel_id": cancelID},
+		Bounds: b,
+		New: func() *Instance {
+			h := &c07H{gates: NewGates(), running: map[string]string{}}
+			body := func() {
+				lib, peer, _ := NewPipe(PipeOpts{Name: "srv", CloseUnblocksRecv: true})
+				srv := jrpc2.NewServer(c07Assigner{h.handler()}, &jrpc2.ServerOptions{Concurrency: 4})
+				srv.Start(lib)
+				peer.Send([]byte(fmt.Sprintf(`{"jsonrpc":"2.0","id":%s,"method":"slow0"}`, callID)))
+				vs.Await(func() bool { return len(h.running) == 1 }, "handler parked")
+				srv.CancelRequest(cancelID)
+				vs.AwaitQuiescence()
+				keys, ok := privKeys(srv, "used")
+				vs.Note("quiet", "after-cancel", strings.Join(keys, "|"), fmt.Sprint(ok))
+				// a duplicate of the real id is still refused, the look-alike id is free
+				peer.Send([]byte(fmt.Sprintf(`{"jsonrpc":"2.0","id":%s,"method":"fast1"}`, callID)))
+				vs.AwaitQuiescence()
+				peer.Send([]byte(fmt.Sprintf(`{"jsonrpc":"2.0","id":%s,"method":"fast2"}`, cancelID)))
+				vs.AwaitQuiescence()
+				for id := range h.running {
+					delete(h.running, id)
+				}
+				h.gates.Open("slow0")
+				vs.AwaitQuiescence()
+				peer.Close()
+				srv.WaitStatus()
+			}
+			check := func(x *vs.Exec) []Viol {
+				v := genericRules(x, nil)
+				if x.Outcome != "ok" {
+					return v
+				}
+				Hit("C07.R4")
+				for _, e := range x.Log {
+					switch e.K {
+					case "h_exit":
+						if e.Arg(0) == "slow0" && e.Arg(3) != "-" {
+							v = append(v, Viol{"C07.R3", fmt.Sprintf("the call with id %s saw its context cancelled (%s) by CancelRequest(%s), which names another id", callID, e.Arg(3), cancelID)})
+						}
+					case "quiet":
+						if e.Arg(2) == "true" && e.Arg(1) != callID {
+							v = append(v, Viol{"C07.R5", fmt.Sprintf("after CancelRequest(%s) the reserved ids are {%s}, the call in flight has id %s", cancelID, e.Arg(1), callID)})
+						}
+					}
+				}
+				outs := outEvents(x, "srv")
+				if len(outs) != 3 {
+					return append(v, Viol{"C07.R1", fmt.Sprintf("expected three replies (duplicate refused, look-alike id served, the call itself), got %d", len(outs))})
+				}
+				m0, _, _ := parseRecord([]byte(outs[0].Raw))
+				m1, _, _ := parseRecord([]byte(outs[1].Raw))
+				m2, _, _ := parseRecord([]byte(outs[2].Raw))
+				if len(m0) != 1 || !isDupErr(m0[0]) {
+					v = append(v, Viol{"C07.R1", "the duplicate of the in-flight id was not refused: " + outs[0].Raw})
+				}
+				if len(m1) != 1 || !m1[0].Has("result") || m1[0].ID() != cancelID {
+					v = append(v, Viol{"C07.R2", "the call with the look-alike id was not served: " + outs[1].Raw})
+				}
+				if len(m2) != 1 || !m2[0].Has("result") || m2[0].ID() != callID {
+					v = append(v, Viol{"C07.R3", "the call in flight did not complete with its result: " + outs[2].Raw})
+				}
+				return v
+			}
+			return &Instance{Body: body, Check: check}
+		},
+	}
+}
+
 func c07Scenarios(tier string) []*Scenario {
 	var out []*Scenario
 	var firsts []c07Op
@@ -723,12 +796,14 @@ func c07Scenarios(tier string) []*Scenario {
 			out = append(out, c07Eager(k, Bounds{2, -1, 0}))
 		}
 		out = append(out, c07Restart("stop", Bounds{1, -1, 0}), c07Restart("eof", Bounds{1, -1, 0}))
+		out = append(out, c07NearID(`"7"`, `7`, Bounds{1, 1, 0}), c07NearID(`7`, `"7"`, Bounds{1, 1, 0}))
 		return out
 	}
 	for _, k := range c07EagerKinds {
 		out = append(out, c07Eager(k, Bounds{3, -1, 1}))
 	}
 	out = append(out, c07Restart("stop", Bounds{2, -1, 1}), c07Restart("eof", Bounds{2, -1, 1}))
+	out = append(out, c07NearID(`"7"`, `7`, Bounds{2, 2, 0}), c07NearID(`7`, `"7"`, Bounds{2, 2, 0}), c07NearID(`"\"7\""`, `"7"`, Bounds{2, 2, 0}))
 	for _, f := range firsts {
 		out = append(out, c07History(f, 3, false, Bounds{2, -1, 0}))
 		out = append(out, c07History(f, 4, false, Bounds{1, 0, 0}))
